@@ -40,3 +40,22 @@ Theorem C03_step_refines F m xff arcs logs o :
   end.
 Proof. exact (step_refines F m xff arcs logs o). Qed.
 Print Assumptions C03_step_refines.
+
+(** ** single updates *)
+From WT Require Import Proofs.CoreCorollaries.
+
+(** accepted exactly when the timestamp is not in the future and younger than the maximum retention *)
+Theorem C03_single_accept_iff F m xff maxret arcs id t v now :
+  0 < maxret <= now -> now < TMAX -> 0 <= t < 2^32 ->
+  (update_point_for_archive F m xff maxret arcs id t v now = UErr <-> (t <= now - maxret \/ now < t)).
+Proof. exact (single_update_accept_iff F m xff maxret arcs id t v now). Qed.
+Print Assumptions C03_single_accept_iff.
+
+(** stored in the finest archive whose retention is at least the point's age: every finer archive
+    is too short *)
+Theorem C03_single_archive arcs t now : arcs <> [] -> Forall wf_arc arcs -> 0 <= t <= now -> now < TMAX ->
+  let id := find_best arcs t now in
+  0 <= id < zlen arcs /\
+  (forall j a, 0 <= j < id -> nth_error arcs (Z.to_nat j) = Some a -> period a < now - t).
+Proof. exact (single_update_archive arcs t now). Qed.
+Print Assumptions C03_single_archive.
